@@ -14,6 +14,45 @@ def case(e, sh, cs="0000", u=1, ss=1, sc=1, th=1, test=0, p="-", G="-", K="-", F
     return f"e={e} sh={sh} cs={cs} u={u} ss={ss} sc={sc} th={th} test={test} p={p} G={G} K={K} F={F} O={O} I={I}"
 
 
+def tuned_case(e, sh, cs, u, sc, th, cost, prec=1000, FL="-", G="-", K="-", F="-", O="-", I="-"):
+    """No sample_size: the loop tunes it (1, 2, 4, ...) until a sample outlasts 100 x prec picoseconds; a call
+    costs `cost` virtual ticks of 1000 ps (cost >= 1 or tuning never ends)."""
+    assert cost >= 1
+    return (f"e={e} sh={sh} cs={cs} u={u} ss=- sc={sc} th={th} test=0 p=- cost={cost} prec={prec} FL={FL} "
+            f"G={G} K={K} F={F} O={O} I={I}")
+
+
+def tuned_rounds(cost, prec):
+    """Number of tuning rounds (sizes 1, 2, 4, ...) until (1 + n*cost) * 1000 / prec > 100."""
+    n, r = 1, 1
+    while (1 + n * cost) * 1000 // prec <= 100:
+        n, r = n * 2, r + 1
+    return r
+
+
+def rand_tuned(rng, scripts=False):
+    e = rng.choice([2, 3, 4, 5, 2, 4, 0, 1])
+    if e >= 2:
+        k = rng.choice([1, 1, 2, 2, 3, 4, 0])
+        idx = rng.sample(range(4), k)
+        cs = "".join("1" if i in idx else "0" for i in range(4))
+    else:
+        cs = "0000"
+    while True:
+        cost, prec = rng.choice([7, 10, 13, 20, 26, 30, 45, 60, 101]), rng.choice([500, 1000, 1000, 2000])
+        if 2 <= tuned_rounds(cost, prec) <= 5:
+            break
+    kw = {}
+    if scripts:
+        kw = dict(G=rand_script(rng), K=rand_script(rng), F=rand_script(rng, 5), O=rand_script(rng), I=rand_script(rng))
+        if kw["F"] == "-":
+            kw["F"] = "a16"
+        # early calls allocate, later ones do not (limit inside or right after the tuning rounds)
+        kw["FL"] = rng.choice(["-", 1, 2, 3, 3, 5, 7, 7, 12, 15, 40])
+    return tuned_case(e, rng.choice(SHAPES), cs, rng.randrange(2), rng.choice([1, 2, 3, 5, 7]), rng.choice([1, 2, 3]),
+                      cost, prec, **kw)
+
+
 def field(c, k):
     for t in c.split(" "):
         if t.startswith(k + "="):
@@ -95,6 +134,8 @@ def hist(cases):
         path = "zst" if iz and (oz or not od) else ("slots" if od else "inputs")
         h["shape_path"][path] = h["shape_path"].get(path, 0) + 1
         for k, f in (("threads", "th"), ("size", "ss"), ("count", "sc")):
+            if field(c, f) is None:
+                continue
             v = field(c, f)
             h[k][v] = h[k].get(v, 0) + 1
         m = "test" if field(c, "test") == "1" else "bench"
